@@ -11,6 +11,7 @@ package webrtc
 // multiset; after GracefulClose on both peers a goroutine census finds nothing left.
 
 import (
+	"context"
 	"errors"
 	"fmt"
 	"runtime"
@@ -31,7 +32,7 @@ type vfC21Closer struct {
 }
 
 type vfC21Case struct {
-	Stage   int           `json:"stage"` // 0 fresh .. 5 data flowing
+	Stage   int           `json:"stage"` // 0 fresh .. 5 data flowing, 6 closing while the own DTLS handshake is parked
 	HoldOps bool          `json:"hold_ops"`
 	Closers []vfC21Closer `json:"closers"`
 	// Sequential: closers are started one after another (each after the system settled) instead of
@@ -66,7 +67,27 @@ func vfC21PionGoroutines() map[string]string {
 func vfC21Run(v *vfT, c vfC21Case) {
 	before := vfC21PionGoroutines()
 	api := vfPairAPI(nil, nil)
-	pcA, err := api.NewPeerConnection(Configuration{})
+	// stage 6: the closing side's DTLS handshake is held inside its connect-context maker
+	// (a public SettingEngine hook) until the closers have returned
+	handshakeGate := make(chan struct{})
+	handshakeEntered := make(chan struct{}, 1)
+	var releaseOnce sync.Once
+	releaseHandshake := func() { releaseOnce.Do(func() { close(handshakeGate) }) }
+	defer releaseHandshake()
+	apiA := api
+	if c.Stage == 6 {
+		apiA = vfPairAPI(func(se *SettingEngine) {
+			se.SetDTLSConnectContextMaker(func() (context.Context, func()) {
+				select {
+				case handshakeEntered <- struct{}{}:
+				default:
+				}
+				<-handshakeGate
+				return context.WithTimeout(context.Background(), 10*time.Second)
+			})
+		}, nil)
+	}
+	pcA, err := apiA.NewPeerConnection(Configuration{})
 	if err != nil {
 		v.Skip("NewPeerConnection")
 	}
@@ -146,14 +167,22 @@ func vfC21Run(v *vfT, c vfC21Case) {
 			}
 		}
 	}
-	if c.Stage >= 4 && !c.HoldOps {
+	if c.Stage == 6 {
+		select {
+		case <-handshakeEntered:
+			v.Label("dtls-handshake-parked")
+		case <-time.After(10 * time.Second):
+			v.Skip("DTLS handshake was not reached (inconclusive)")
+		}
+	}
+	if c.Stage >= 4 && c.Stage <= 5 && !c.HoldOps {
 		if !vfPairWait(10*time.Second, func() bool {
 			return pcA.ConnectionState() == PeerConnectionStateConnected && dc.ReadyState() == DataChannelStateOpen
 		}) {
 			v.Skip("pair did not connect (inconclusive)")
 		}
 	}
-	if c.Stage >= 5 && !c.HoldOps {
+	if c.Stage == 5 && !c.HoldOps {
 		sendWG.Add(2)
 		go func() {
 			defer sendWG.Done()
@@ -237,6 +266,13 @@ func vfC21Run(v *vfT, c vfC21Case) {
 		}
 		gates.OpenAll()
 	}
+	if c.Stage == 6 {
+		// plain Close returns while the handshake is still parked; GracefulClose has to wait for the
+		// queued transport start, so the handshake is released once the closers had time to get going
+		vfSettle(gates, actors)
+		time.Sleep(2 * time.Millisecond)
+		releaseHandshake()
+	}
 	if ok, dump := vfWaitActors(actors, 30*time.Second); !ok {
 		v.Violation("C21/close-hangs", "Close/GracefulClose callers did not return within 30s (stage %d, hold_ops=%v): %s", c.Stage, c.HoldOps, dump)
 	}
@@ -248,6 +284,15 @@ func vfC21Run(v *vfT, c vfC21Case) {
 	}
 	close(stopSend)
 	sendWG.Wait()
+	if c.Stage == 6 {
+		// the handshake now runs on a closed connection and fails: nothing but closed may be emitted
+		releaseHandshake()
+		vfPairWait(3*time.Second, func() bool { return pcA.dtlsTransport.State() != DTLSTransportStateConnecting })
+		time.Sleep(5 * time.Millisecond)
+		if s := pcA.ConnectionState(); s != PeerConnectionStateClosed {
+			v.Violation("C21/connection-not-closed", "Close returned during the DTLS handshake; after the handshake ended ConnectionState()=%s", s)
+		}
+	}
 
 	if len(c.Closers) > 1 {
 		v.NonTrivial()
@@ -375,12 +420,12 @@ func vfC21Run(v *vfT, c vfC21Case) {
 
 func TestVerif_C21(t *testing.T) {
 	vfProperty(t, "C21", vfOpts{
-		Rule: "1-4 concurrent Close/GracefulClose callers (with drawn Gosched delays) at setup stage 0..5 (fresh, media added, local offer set, answer applied, connected, data flowing), optionally with the operations worker held at a yield point; then every negotiation-changing API; non-trivial = at least two concurrent closers",
+		Rule: "1-4 concurrent Close/GracefulClose callers (with drawn Gosched delays) at setup stage 0..6 (fresh, media added, local offer set, answer applied, connected, data flowing, own DTLS handshake parked in the connect-context maker), optionally with the operations worker held at a yield point; then every negotiation-changing API; non-trivial = at least two concurrent closers",
 		Assumptions: []string{"goroutine census: goroutines with a github.com/pion frame that did not exist before the case and are not harness goroutines, polled for 2s after both peers' GracefulClose returned",
 			"handler delivery order is not asserted (one goroutine per event); emission order comes from the pc.connstate monitor",
 			"a pair that cannot reach the requested stage within its watchdog is discarded as inconclusive"},
 	}, func(v *vfT) vfC21Case {
-		c := vfC21Case{Stage: rapid.IntRange(0, 5).Draw(v.R, "stage")}
+		c := vfC21Case{Stage: rapid.IntRange(0, 6).Draw(v.R, "stage")}
 		c.HoldOps = c.Stage >= 1 && c.Stage <= 3 && rapid.Bool().Draw(v.R, "hold")
 		c.Sequential = rapid.Bool().Draw(v.R, "sequential")
 		n := rapid.IntRange(1, 4).Draw(v.R, "closers")
